@@ -8,8 +8,8 @@ reference machine stopped at the corresponding micro-step.
 import copy
 
 from checks import _engine_base as B
-from checks._engine_base import setup_main, setup_worker, config_class, COMPONENTS, TIME_NOTE  # noqa
-from sim import enginesim, case as C, kernel
+from checks._engine_base import config_class, TIME_NOTE  # noqa
+from sim import enginesim, case as C, kernel, sigint
 from sim import gen as G
 
 ID = 'C18'
@@ -25,6 +25,24 @@ STATE_MEASURE = 'distinct (engine class, fault kind, model micro-step at the sto
 ASSUMPTIONS = ['reference machine stopped at the micro-step of the failing call is the consistent point',
                'exceptions raised by a device callback are delivered synchronously (true for all three engines)',
                'asynchronous SIGINT is explored by the interrupt family of this check (see coverage.fault_counts)']
+
+COMPONENTS = {'real': B.COMPONENTS['real'] + ['CPython pending-signal delivery (PyErr_SetInterrupt -> eval breaker / '
+                                              'PyErr_CheckSignals)'],
+              'stub': B.COMPONENTS['stub'] + ['the OS signal source (the interrupt is made pending by sim/_verifsig.c at a '
+                                              'chosen bytecode instruction or device call)'],
+              'oracle': B.COMPONENTS['oracle']}
+
+
+def setup_main():
+    B.setup_main()
+    from sim import build
+    build.build_helper('_verifsig')
+
+
+def setup_worker():
+    B.setup_worker()
+    sigint.enable_monitoring()
+
 
 KINDS_READ = ['io', 'eof', 'foreign', 'value', 'kbd', 'baseexc', 'badbool', 'truthy', 'broken']
 KINDS_WRITE = ['io', 'eof', 'foreign', 'value', 'kbd', 'baseexc', 'broken']
@@ -52,7 +70,126 @@ def engine_configs(rng):
     return cfgs
 
 
+def gen_sigint(rng, index, tier, native):
+    for _ in range(8):
+        w = rng.choice([8, 16, 32, 64, 64]) if not native else rng.choice([16, 32, 64, 64])
+        case = sigint.build_loop_case(rng, w, long_input=native)
+        if case is None:
+            continue
+        # must be endless: the model must still be running after 3000 ops
+        bits = sigint.input_bits_of(case)
+        st, rec, m = sigint.model_states_at(case, 3000, None, bits, 3000)
+        if st is None:
+            continue
+        break
+    else:
+        return None
+    ring = rng.choice([None, 0, 1, 3, 10])
+    if native:
+        case['family'] = 'native-poll'
+        ncalls = len(rec.calls_op)
+        case['fire_calls'] = sorted(set([0] + ([rng.randrange(ncalls)] if ncalls else [])))[:2] if ncalls else []
+        case['configs'] = [rng.choice([{'engine': 'native', 'last_ops': ring},
+                                       {'engine': 'native', 'last_ops': ring, 'env': {'FLIPJUMP_NO_FLAT': '1'}},
+                                       {'engine': 'native', 'last_ops': rng.choice([1, 10])},
+                                       {'engine': 'native', 'env': {'FLIPJUMP_MEASURE_SPECULATION': '1'}},
+                                       {'engine': 'native', 'last_ops': ring, 'flat_max_words': rng.choice([2, 5, 16])}])]
+        if not case['fire_calls']:
+            return None
+    else:
+        case['family'] = 'python-instr'
+        case['configs'] = [{'engine': 'fast', 'last_ops': ring}, {'engine': 'featured', 'last_ops': ring}]
+        # instruction counts: every n across ~two ops' worth at 2 seeded bases + seeded singles
+        bases = [1, rng.randrange(150, 1500)]
+        ns = set()
+        for b in bases:
+            ns.update(range(b, b + (170 if tier == 'thorough' else 60)))
+        for _ in range(20):
+            ns.add(rng.randrange(1, 6000))
+        case['instr_ns'] = sorted(ns)
+        ncalls = len(rec.calls_op)
+        case['fire_calls'] = sorted(set(rng.randrange(ncalls) for _ in range(3))) if ncalls else []
+    return case
+
+
+def check_interrupt_obs(case, cfg, obs, bits, arrival_call=None):
+    """oracle for an interrupted run. returns None or (clause, expected, observed)"""
+    if not obs['fired']:
+        return 'not-fired'
+    if obs['outcome'] != ('term', 'keyboard-interrupt', None):
+        return ('termination', ['term', 'keyboard-interrupt', None], C._j(obs['outcome']))
+    k = obs['ops']
+    if not isinstance(k, int) or k < 0 or k > (1 << 21):
+        return ('op-count', 'a count within the bounded-progress window', k)
+    states, rec, m = sigint.model_states_at(case, k, cfg.get('last_ops'), bits, k + 2)
+    if states is None:
+        return ('op-count', 'count of an op the program executes', k)
+    native = cfg['engine'] == 'native'
+    if native:
+        states = states[:1]                      # the native loop stops on op boundaries only
+        if arrival_call is not None:
+            arr = rec.calls_op[arrival_call] if arrival_call < len(rec.calls_op) else None
+            if arr is not None and not (arr < k <= arr + (1 << 20)):
+                return ('bounded-progress', f'stop within 2^20 ops after op {arr}', k)
+    got = (obs['final'], obs['last_ops'], obs['log'])
+    for label, mem, lo, log in states:
+        if mem == got[0] and lo == got[1] and log == got[2]:
+            return ('ok', label)
+    # which component differs from every admissible state?
+    for name, idx in (('memory-state', 0), ('last-ops', 1), ('device-log', 2)):
+        if all((s[1], s[2], s[3])[idx] != got[idx] for s in states):
+            exp = [(s[0], C._j(s[1 + idx]) if idx != 2 else s[3][-8:].hex()) for s in states[:3]]
+            o = got[idx] if idx != 2 else got[idx][-8:].hex()
+            return (name, {'count': k, 'admissible': C._j(exp)[:3]}, C._j(o) if idx != 0 else 'differs')
+    return ('memory-state', {'count': k, 'admissible': 'no single micro-state of op k matches all components'}, 'mixed')
+
+
+def run_sigint(case):
+    path = enginesim.image_path()
+    C.write_image(case, path)
+    bits = sigint.input_bits_of(case)
+    faults = {}
+    states = set()
+    violations = []
+    steps = 0
+    runs = 0
+    plans = []
+    for cfg in case['configs']:
+        if case['family'] == 'python-instr':
+            plans += [(cfg, n, -1) for n in case['instr_ns']]
+        plans += [(cfg, -1, c) for c in case['fire_calls']]
+    for cfg, n, c in plans:
+        obs = sigint.run_interrupted(case, cfg, path, bits, instr_n=n, fire_at_call=c)
+        kernel.drain_interrupt()
+        runs += 1
+        steps += obs['ops'] or 0
+        fk = ('sigint@instr:' if n >= 0 else 'sigint@call:') + cfg['engine']
+        cur = faults.setdefault(fk, [0, 0])
+        cur[0] += 1
+        r = check_interrupt_obs(case, cfg, obs, bits, arrival_call=c if c >= 0 else None)
+        if r == 'not-fired':
+            continue
+        cur[1] += 1
+        if r[0] == 'ok':
+            states.add(f"{enginesim.cfg_class(cfg)}|{'instr' if n >= 0 else 'call'}|stop@{r[1]}")
+            continue
+        violations.append({'clause': r[0], 'config': cfg, 'config_name': enginesim.cfg_name(cfg), 'expected': r[1],
+                           'observed': r[2], 'fault': {'kind': 'sigint', 'instr_n': n, 'fire_at_call': c},
+                           'exp_outcome': ['term', 'keyboard-interrupt'], 'obs_outcome': C._j(obs['outcome'])})
+        if len(violations) >= 3:
+            break
+    probes = {'sigint_runs': runs, 'sigint_' + case['family']: 1, f"w{case['w']}": 1}
+    return {'violations': violations, 'probes': probes, 'faults': faults, 'states': states, 'steps': steps,
+            'nontrivial': runs > 0,
+            'digest': kernel.digest_of([case, [[v['clause'], v['config_name'], v['fault']] for v in violations],
+                                        sorted(states)])}
+
+
 def gen(rng, index, tier):
+    if index % 64 == 1:
+        return gen_sigint(rng, index, tier, native=True)
+    if index % 16 == 3:
+        return gen_sigint(rng, index, tier, native=False)
     for _ in range(6):
         case, meta = G.gen_case(rng, 'c18')
         case['tags'] = meta['tags']
@@ -80,6 +217,8 @@ def gen(rng, index, tier):
 
 
 def run(case):
+    if case.get('kind') == 'sigint':
+        return run_sigint(case)
     faults = {}
     states = set()
     violations = []
@@ -137,6 +276,15 @@ def run_single(case):
 
 
 def minimise(case, violation):
+    if case.get('kind') == 'sigint':
+        c = copy.deepcopy(case)
+        flt = violation['fault']
+        c['configs'] = [violation['config']]
+        c['instr_ns'] = [flt['instr_n']] if flt['instr_n'] >= 0 else []
+        c['fire_calls'] = [flt['fire_at_call']] if flt['fire_at_call'] >= 0 else []
+        if c['family'] == 'native-poll' and not c['fire_calls']:
+            c['fire_calls'] = case['fire_calls'][:1]
+        return c, violation
     c = _single(case, violation)
     mc, mv = enginesim.minimise(c, violation, FIELDS)
     mv = dict(mv, fault=mc.get('fault'))
@@ -145,6 +293,9 @@ def minimise(case, violation):
 
 
 def signature(case, violation):
+    if case.get('kind') == 'sigint':
+        return {'clause': violation.get('clause'), 'config_class': enginesim.cfg_class(violation.get('config')),
+                'w': case['w'], 'fault_kind': 'sigint', 'family': case.get('family')}
     c = dict(case)
     if violation.get('fault'):
         c['fault'] = violation['fault']
